@@ -277,3 +277,27 @@ package meta
 //@   loop 1: invariant wildcardIdx != -1 ==> (wildcardIdx == 1 ==> len(prefix) == 0) && (wildcardIdx == 2 ==> litBytes(prefix, subs[1]))
 //@   loop 1: invariant wildcardIdx != -1 ==> ((i == wildcardIdx + 1 && charClassTable == nil && charClassMin == 0) || (i == wildcardIdx + 2 && i == suffixIdx && isBytePlus(subs[wildcardIdx+1]) && charClassTable != nil && charClassMin == 1 && tableOf(*charClassTable, subs[wildcardIdx+1].Sub[0])))
 //@   loop 1: decreases suffixIdx - i
+
+// the engine entry points of the strategy: the whole input or nothing, only from offset 0
+//@ spec func alMatch(in []byte, info *AnchoredLiteralInfo) bool = alEnds(in, info) && (exists k :: 0 <= k && alK(in, info, k))
+//@ func (*Engine).isMatchAnchoredLiteral
+//@   props C19
+//@   requires e != nil && alInfoOK(e.anchoredLiteralInfo)
+//@   ensures result <==> alMatch(haystack, e.anchoredLiteralInfo)
+//@ func (*Engine).findIndicesAnchoredLiteral
+//@   props C19
+//@   requires e != nil && alInfoOK(e.anchoredLiteralInfo)
+//@   ensures result2 <==> alMatch(haystack, e.anchoredLiteralInfo)
+//@   ensures result2 ==> result0 == 0 && result1 == len(haystack)
+//@   ensures !result2 ==> result0 == -1 && result1 == -1
+//@ func (*Engine).findIndicesAnchoredLiteralAt
+//@   props C19
+//@   requires e != nil && alInfoOK(e.anchoredLiteralInfo)
+//@   ensures result2 <==> (at <= 0 && alMatch(haystack, e.anchoredLiteralInfo))
+//@   ensures result2 ==> result0 == 0 && result1 == len(haystack)
+//@   ensures !result2 ==> result0 == -1 && result1 == -1
+//@ func (*Engine).findAnchoredLiteral
+//@   props C19
+//@   requires e != nil && alInfoOK(e.anchoredLiteralInfo)
+//@   ensures result != nil <==> alMatch(haystack, e.anchoredLiteralInfo)
+//@   ensures result != nil ==> fresh(result) && result.start == 0 && result.end == len(haystack) && sameslice(result.haystack, haystack)
